@@ -425,11 +425,21 @@ func matchClasses(p *core.Prog, r *core.Report, info *types.Info) {
 		}
 		return true
 	})
+	// the same table as data: `if class, ok := T[c]; ok { b.WriteString(class) } else { literal }` with T a
+	// package-level map literal nothing writes to
+	var tbl *classTable
 	if sw == nil {
+		loop, tbl = matchTable(p, info, fd)
+	}
+	if sw == nil && tbl == nil {
 		r.Und("CLASSES", "gts.Match|switch", p.Pos(fd.Pos()), "no switch on the ranged query byte found")
 		return
 	}
 	cObj := core.ObjOf(info, loop.Value)
+	anchor := loop.Pos()
+	if sw != nil {
+		anchor = sw.Pos()
+	}
 	// builder variable: receiver of the Write* calls inside the switch
 	isBuilderWrite := func(c *ast.CallExpr) (string, bool) {
 		fn := core.Callee(info, c)
@@ -458,7 +468,18 @@ func matchClasses(p *core.Prog, r *core.Report, info *types.Info) {
 	hasCase := map[byte]bool{}
 	var deflt *ast.CaseClause
 	litN := 0
-	for _, cc := range sw.Body.List {
+	var clauses []ast.Stmt
+	if sw != nil {
+		clauses = sw.Body.List
+	} else {
+		for q, w := range tbl.class {
+			hasCase[q], casePos[q], classOf[q] = true, tbl.pos[q], w
+		}
+		if tbl.miss != nil {
+			deflt = &ast.CaseClause{Case: tbl.miss.Pos()}
+		}
+	}
+	for _, cc := range clauses {
 		cl := cc.(*ast.CaseClause)
 		if cl.List == nil {
 			deflt = cl
@@ -529,7 +550,7 @@ func matchClasses(p *core.Prog, r *core.Report, info *types.Info) {
 		want := expected(q)
 		if !hasCase[q] {
 			// falls to the default branch: literal, matches only itself
-			pos := p.Pos(sw.Pos())
+			pos := p.Pos(anchor)
 			if deflt == nil {
 				r.Bad("CLASSES", key, pos, "no case and no default branch: the query letter is dropped from the pattern")
 			} else if want == string([]byte{q}) {
@@ -590,6 +611,9 @@ func matchClasses(p *core.Prog, r *core.Report, info *types.Info) {
 		if _, isConst := info.Types[c.Args[0]]; isConst && info.Types[c.Args[0]].Value != nil {
 			return true
 		}
+		if tbl != nil && core.ObjOf(info, c.Args[0]) == tbl.val && tbl.val != nil && name == "WriteString" {
+			return true // the class looked up in the table, decided entry by entry above
+		}
 		litN++
 		key := fmt.Sprintf("gts.Match|dynamic-write#%d", litN)
 		arg := core.Origin(info, asg, c.Args[0])
@@ -633,7 +657,7 @@ func matchClasses(p *core.Prog, r *core.Report, info *types.Info) {
 	})
 	if litN == 0 {
 		if deflt == nil {
-			r.Bad("LITERAL", "gts.Match|default", p.Pos(sw.Pos()), "no branch writes non-alphabet query bytes: they vanish from the pattern")
+			r.Bad("LITERAL", "gts.Match|default", p.Pos(anchor), "no branch writes non-alphabet query bytes: they vanish from the pattern")
 		} else {
 			r.Und("LITERAL", "gts.Match|default", p.Pos(deflt.Pos()), "default branch writes nothing query-derived")
 		}
@@ -941,4 +965,161 @@ func Alphabet(p *core.Prog, r *core.Report) {
 	} else {
 		r.Bad("INVOLUTION", "gts.Complement", "-", "not an involution at byte "+bad)
 	}
+}
+
+// classTable is the query-letter table of Match given as a map literal.
+type classTable struct {
+	class map[byte]string
+	pos   map[byte]token.Pos
+	val   types.Object // the variable that receives the looked-up class
+	miss  ast.Stmt     // what runs when the byte is not in the table
+}
+
+// matchTable recognises the lookup form of the class table in Match: inside
+// the loop over the query bytes a comma-ok lookup `v, ok := T[c]` whose hit
+// branch writes v and whose miss branch writes the literal. T must be a
+// package-level map[byte]string whose literal has constant keys and values and
+// which the package only ever reads by index.
+func matchTable(p *core.Prog, info *types.Info, fd *ast.FuncDecl) (*ast.RangeStmt, *classTable) {
+	var loop *ast.RangeStmt
+	var out *classTable
+	ast.Inspect(fd.Body, func(n ast.Node) bool {
+		rs, ok := n.(*ast.RangeStmt)
+		if !ok || rs.Value == nil || out != nil {
+			return true
+		}
+		c := core.ObjOf(info, rs.Value)
+		if c == nil {
+			return true
+		}
+		lookup := func(st ast.Stmt) (types.Object, types.Object, *types.Var) {
+			as, ok := st.(*ast.AssignStmt)
+			if !ok || len(as.Lhs) != 2 || len(as.Rhs) != 1 {
+				return nil, nil, nil
+			}
+			ix, ok := ast.Unparen(as.Rhs[0]).(*ast.IndexExpr)
+			if !ok || core.ObjOf(info, ix.Index) != c {
+				return nil, nil, nil
+			}
+			t, ok := core.ObjOf(info, ix.X).(*types.Var)
+			if !ok || t.Pkg() == nil || t.Parent() != t.Pkg().Scope() {
+				return nil, nil, nil
+			}
+			return core.ObjOf(info, as.Lhs[0]), core.ObjOf(info, as.Lhs[1]), t
+		}
+		var v, okv types.Object
+		var t *types.Var
+		for _, st := range rs.Body.List {
+			if a, b, c := lookup(st); c != nil {
+				v, okv, t = a, b, c
+				continue
+			}
+			is, isIf := st.(*ast.IfStmt)
+			if !isIf {
+				continue
+			}
+			if is.Init != nil {
+				if a, b, c := lookup(is.Init); c != nil {
+					v, okv, t = a, b, c
+				}
+			}
+			if t == nil || okv == nil || v == nil {
+				continue
+			}
+			hit, miss := ast.Stmt(is.Body), is.Else
+			switch x := ast.Unparen(is.Cond).(type) {
+			case *ast.Ident:
+				if info.Uses[x] != okv {
+					continue
+				}
+			case *ast.UnaryExpr:
+				if x.Op != token.NOT || core.ObjOf(info, x.X) != okv {
+					continue
+				}
+				hit, miss = is.Else, is.Body
+			default:
+				continue
+			}
+			if hit == nil {
+				continue
+			}
+			class, pos, ok := mapLiteral(p, info, t)
+			if !ok {
+				continue
+			}
+			loop, out = rs, &classTable{class: class, pos: pos, val: v, miss: miss}
+		}
+		return true
+	})
+	return loop, out
+}
+
+// mapLiteral returns the constant entries of the package-level map variable t,
+// provided its initialiser is a composite literal of constant byte keys and
+// constant string values and every other mention of t in its package is an
+// index expression that is read.
+func mapLiteral(p *core.Prog, info *types.Info, t *types.Var) (map[byte]string, map[byte]token.Pos, bool) {
+	class, pos := map[byte]string{}, map[byte]token.Pos{}
+	found, clean := false, true
+	for _, f := range p.Pkg(core.PkgGts).Syntax {
+		par := core.Parents(f)
+		ast.Inspect(f, func(n ast.Node) bool {
+			id, ok := n.(*ast.Ident)
+			if !ok {
+				return true
+			}
+			if info.Defs[id] == t {
+				vs, ok := par[ast.Node(id)].(*ast.ValueSpec)
+				if !ok || len(vs.Names) != 1 || len(vs.Values) != 1 {
+					clean = false
+					return true
+				}
+				cl, ok := ast.Unparen(vs.Values[0]).(*ast.CompositeLit)
+				if !ok {
+					clean = false
+					return true
+				}
+				for _, e := range cl.Elts {
+					kv, ok := e.(*ast.KeyValueExpr)
+					if !ok {
+						clean = false
+						continue
+					}
+					k, ok1 := core.ConstInt(info, kv.Key)
+					v, ok2 := core.ConstString(info, kv.Value)
+					if !ok1 || !ok2 || k < 0 || k > 255 {
+						clean = false
+						continue
+					}
+					class[byte(k)], pos[byte(k)] = v, kv.Pos()
+				}
+				found = true
+				return true
+			}
+			if info.Uses[id] != t {
+				return true
+			}
+			ix, ok := par[ast.Node(id)].(*ast.IndexExpr)
+			if !ok || ix.X != ast.Expr(id) {
+				clean = false // passed on, ranged over, re-assigned: the table is no longer what its literal says
+				return true
+			}
+			switch up := par[ast.Node(ix)].(type) {
+			case *ast.AssignStmt:
+				for _, l := range up.Lhs {
+					if l == ast.Expr(ix) {
+						clean = false
+					}
+				}
+			case *ast.IncDecStmt:
+				clean = false
+			case *ast.UnaryExpr:
+				if up.Op == token.AND {
+					clean = false
+				}
+			}
+			return true
+		})
+	}
+	return class, pos, found && clean
 }
